@@ -22,6 +22,12 @@ class _V:
         self.repetition = cr.repetition
 
 
+def _nodes(prog, path=()):
+    yield path, prog
+    for c in prog.children:
+        yield from _nodes(c, path + (c.name,))
+
+
 def _ep(e):
     return e.port_name if e.routine_name is None else f"{e.routine_name}.{e.port_name}"
 
@@ -122,6 +128,28 @@ def oracle(case, res, extra):
             if err2:
                 res.violation("failing-input", "after editing the document object in place and compiling it again, the compiled hierarchy does not follow the edited document: " + err2,
                               {"qref": case.qref, "history": ["compile(obj)", "in-place edits " + str(edits), "compile(obj)"]}, err2, "structure of the edited document")
+                return
+
+    # ---- a derived resource is requested under a name some routines already declare by hand, and the calculation has nothing to add
+    # (returns None, the documented way of saying so): every declared resource stays
+    if case.seed % 4 == 1:
+        from ..real import try_compile
+
+        declared = sorted({r.name for _, n_ in _nodes(src) if n_.repetition is None for r in n_.resources})
+        if declared:
+            rng_d = random.Random(case.seed * 41 + 3)
+            xname = rng_d.choice(declared)
+            st4, r4 = try_compile(case.qref, derived_resources=[{"name": xname, "type": "other", "calculate": (lambda routine, backend: None)}])
+            res.stats["derived_none_" + st4.split(":")[0]] += 1
+            if st4 == "ok":
+                err4 = rec(src, _V(r4.routine), [])
+                if err4:
+                    res.violation("failing-input", f"with a derived resource {xname} requested whose calculation returns None, the compiled hierarchy differs in structure: " + err4,
+                                  {"qref": case.qref, "derived_resources": [{"name": xname, "type": "other", "calculate": "lambda routine, backend: None"}]}, err4, "same structure")
+                    return
+            elif st4 != case.status:
+                res.violation("failing-input", f"requesting a derived resource whose calculation returns None turns a compilable routine into {st4}",
+                              {"qref": case.qref, "derived_resources": [{"name": xname}]}, str(r4)[:200], "ok")
                 return
 
     # ---- legal but unusual document: a resource whose value is left out (`value: null` is schema-valid QREF).  The implementation may
